@@ -1,6 +1,7 @@
 package trzsz
 
 import (
+	"encoding/json"
 	"fmt"
 	"math/rand"
 	"os"
@@ -239,6 +240,11 @@ func vC20System(rc *runCtx) {
 			cfg.relayTmux = append(cfg.relayTmux, []string{"", "normal"}[tp.Pick("c20s.rtmux", 1, 2)])
 		}
 	}
+	// a peer may announce a pane width no pane has: the bar then goes by the terminal
+	hugePane := tp.Bool("c20s.hugepane", 80)
+	if hugePane {
+		cfg.srvTmux, cfg.relays, cfg.relayTmux, cfg.tunnel, cfg.fork = "", 0, nil, false, false
+	}
 	src := filepath.Join(rc.dir, "src")
 	dst := filepath.Join(rc.dir, "dst")
 	dst2 := filepath.Join(rc.dir, "dst2")
@@ -307,6 +313,33 @@ func vC20System(rc *runCtx) {
 	armed := vArmAfterCfg(x)
 	cols := o.cols
 	resizedAt := -1
+	if hugePane {
+		pw := []string{"10001", "20000", "65536", "1000000", "2147483647"}[tp.Draw("c20s.hugepanew", 5)]
+		ed := vLineEdit(func(typ, payload string, nth int) (string, bool) {
+			if typ != "CFG" {
+				return "", false
+			}
+			raw, err := vDecode(payload)
+			if err != nil {
+				return "", false
+			}
+			var m map[string]any
+			if json.Unmarshal(raw, &m) != nil || m == nil {
+				return "", false
+			}
+			m["tmux_pane_width"] = json.RawMessage(pw)
+			js, _ := json.Marshal(m)
+			rc.fault("implausible-pane-width-announced")
+			return vEncode(js), true
+		})
+		prev := x.down[0].Mangle
+		x.down[0].Mangle = func(l *verifsim.Link, d []byte) []byte {
+			if prev != nil {
+				d = prev(l, d)
+			}
+			return ed(l, d)
+		}
+	}
 	// (a terminal narrower than the tmux pane it shows cannot exist: the resize is for paths without any tmux)
 	anyRelayTmux := false
 	for _, m := range cfg.relayTmux {
@@ -319,6 +352,27 @@ func vC20System(rc *runCtx) {
 			x.filter.SetTerminalColumns(newCols)
 			cols = newCols
 			resizedAt = x.term.NSentInt()
+		})
+	}
+	// the terminal may also change while the stop/continue question is open; the bar goes on in the new width
+	if cfg.srvTmux == "" && !anyRelayTmux && resizedAt < 0 && !hugePane && tp.Bool("c20s.pauseresize", 150) {
+		newCols := int32(20 + tp.Draw("c20s.pausecols", 60))
+		vOnChunk(rc, x, armed, 250, func() {
+			x.paused = true
+			w.Go("user", x.client, func() {
+				x.kbd.Write([]byte{0x03})
+				verifsim.Sleep(300 * time.Millisecond)
+				if !x.filter.IsTransferringFiles() {
+					return
+				}
+				rc.fault("terminal-resized-while-question-open")
+				x.filter.SetTerminalColumns(newCols)
+				cols = newCols
+				verifsim.Sleep(300 * time.Millisecond)
+				x.typeKeys("jj", 20*time.Millisecond)
+				x.typeKeys("\r", 20*time.Millisecond)
+				resizedAt = x.term.NSentInt()
+			})
 		})
 	}
 	before := vSnapshot(dst)
